@@ -79,12 +79,18 @@ static Reg r_logrun("logrun", [](std::istringstream& is) {
 	int lead_holds(0);
 	for (auto& t : sc) if (!t.empty() && t[0] == 'h') ++lead_holds;
 	if (holds) ff::verif_hook() = log_hold_hook;
+	// The producer threads outlive the logger: they park after their last submit and are released once the logger object is gone.  A thread that exits while
+	// the logger thread is giving back the last LogElement it allocated races inside the bundled FastFlow allocator (the exiting thread's key destructor walks
+	// the allocator that the freeing thread deletes: heap-use-after-free, seen under load).  That is outside what C28 states (see DESIGN 10.14), so the
+	// harness does not provoke it.
+	std::atomic<int> go(0);
+	std::atomic<long> returned(0);
+	std::atomic<unsigned> finished(0);
+	std::atomic<bool> stop_entered(false), release(false);
+	std::vector<std::thread> th;
+	std::string out;
 	{
 		FileLogger lg(path, Logger::LogFlags() << Logger::sequence << Logger::thread << Logger::level, levels, " ", Logger::LogPositions(), 0);
-		std::atomic<int> go(0);
-		std::atomic<long> returned(0);
-		std::atomic<bool> stop_entered(false);
-		std::vector<std::thread> th;
 		for (size_t p(0); p < sc.size(); ++p)
 			th.emplace_back([&, p] {
 				while (!go.load()) sched_yield();
@@ -108,12 +114,14 @@ static Reg r_logrun("logrun", [](std::istringstream& is) {
 					++returned;
 					rets[p].emplace_back(r ? 1 : 0, before ? 1 : 0);
 				}
+				++finished;
+				while (!release.load()) usleep(200);
 			});
 		go = 1;
 		if (stop_after >= 0)
 			while (returned.load() < stop_after) sched_yield();
 		else
-			for (auto& t : th) t.join();
+			while (finished.load() < sc.size()) sched_yield();
 		struct timespec t0, t1;
 		clock_gettime(CLOCK_MONOTONIC, &t0);
 		stop_entered = true;
@@ -124,19 +132,20 @@ static Reg r_logrun("logrun", [](std::istringstream& is) {
 		// the file is read here: after stop() has returned and before the logger is destroyed
 		J j;
 		j.k("file").hexs(slurp(path));
-		if (stop_after >= 0)
-			for (auto& t : th) t.join();
+		while (finished.load() < sc.size()) usleep(100);
 		J rr('[');
 		for (auto& v : rets) { J a('['); for (auto& pr : v) { J e('['); e.num(pr.first).num(pr.second); a.raw(e.done()); } rr.raw(a.done()); }
 		j.k("ret").raw(rr.done());
 		char b[32]; snprintf(b, sizeof b, "%.6f", stop_s);
 		j.k("stop_s").raw(b);
 		j.k("file_after_destruction").raw("null");
-		const std::string out(j.done());
-		unlink(path.c_str());
-		if (holds) ff::verif_hook() = nullptr;
-		return out;
+		out = j.done();
 	}
+	release = true;
+	for (auto& t : th) t.join();
+	unlink(path.c_str());
+	if (holds) ff::verif_hook() = nullptr;
+	return out;
 });
 
 //-----------------------------------------------------------------------------------------------
